@@ -5,7 +5,7 @@ use std::ffi::{OsStr, OsString};
 use std::os::unix::ffi::{OsStrExt as _, OsStringExt as _};
 use std::panic::{catch_unwind, AssertUnwindSafe};
 
-const NEEDLES: &[&str] = &["-", "--", "=", "é", "=é", ",", "a", "aa", "1e"];
+const NEEDLES: &[&str] = &["-", "--", "=", "é", "=é", ",", "a", "aa", "1e", "aab", "--=", "-=-", "abab", "aba", "é=é", "a1a"];
 const OSOPS: &[&str] = &["find", "contains", "starts", "strip", "splitonce", "split"];
 
 fn naive_find(h: &[u8], n: &[u8]) -> Option<usize> {
@@ -151,6 +151,17 @@ pub fn run(o: &Opts) -> Report {
             let mut v = Vec::with_capacity(l);
             for _ in 0..l { v.push(alphabet[n % k]); n /= k; }
             hays.push(v);
+        }
+    }
+    // long haystacks over tiny alphabets: self-overlapping needles, partial matches
+    for alpha in [&b"ab"[..], &b"-="[..], &b"a1"[..]] {
+        let l = if o.thorough() { 10 } else { 8 };
+        for len in 5..=l {
+            for mut n in 0..(alpha.len() as u64).pow(len as u32) {
+                let mut v = Vec::with_capacity(len);
+                for _ in 0..len { v.push(alpha[(n % alpha.len() as u64) as usize]); n /= alpha.len() as u64; }
+                hays.push(v);
+            }
         }
     }
     rep.exhaustive = true;
